@@ -46,3 +46,21 @@ PROPS["C10"] = {
     "note": "Decides the in-package mechanism, not the bytes: assumes user code writes through the Output/IO API. "
             "Level constants are read from clikit.api.io.flags on each run.",
 }
+
+SOURCE_COMMITS.append("e030674")  # fix: reset the parser's option scratch map (C05)
+SOURCE_COMMITS.append("049c08b")  # fix: help resolver hands the caller's tokens back unchanged (C05/C17)
+
+PROPS["C05"] = {
+    "claimed": True,
+    "technique": "static analysis: CFG reset-before-use of per-parse scratch attributes; interprocedural effect/alias (origin) analysis for caller-owned argv / raw args / format",
+    "text": (
+        "Decides the two structural sources of history dependence. RESET: the attributes a parser writes during a parse are computed "
+        "(methods reachable from parse on the same object); for each, a fresh rebind must lie on every path from the start of parse to "
+        "its first use or to the first call that reaches a use. OWNER: a flow-sensitive origin analysis with interprocedural summaries "
+        "shows that no function of the args/resolver/handler modules mutates, at any alias depth, an argv list, a RawArgs (incl. the list "
+        "its tokens getter returns) or an ArgsFormat it was handed, except a del X[0] whose inverse insert(0, ..) is on every exit "
+        "including exceptional ones. 'State leaks from parse n to n+1' is invisible to single-parse tests but is one CFG query."
+    ),
+    "note": "Does not prove equality with a fresh parser for all histories: determinism of the rest (no clock/randomness) is assumed. "
+            "Closed world for clikit.*; mutation through reflection/setattr is not modelled.",
+}
